@@ -35,6 +35,7 @@ Fixpoint collect (evs : list ev) (cur : option cur_t) (acc : list obs) (codes : 
           | Some (m, t, v, hs, body) => collect r (Some (m, t, v, hs, body ++ b)) acc codes
           | None => OList [OList acc; OTag "BodyWithoutRequest"; OList codes]
           end
+      | EvContinue => collect r cur acc (codes ++ [OInt 100])
       | EvFin =>
           match cur with
           | Some c => collect r None (acc ++ [req_obs c "fin"]) (codes ++ [OInt 200])
@@ -50,11 +51,11 @@ Fixpoint collect (evs : list ev) (cur : option cur_t) (acc : list obs) (codes : 
   end.
 Definition obs_of_events (evs : list ev) : obs := collect evs None [] [].
 
-(* input: (max_header_size, max_body_size, chunk_size, TCP segments) *)
-Definition input := (nat * N * nat * list (list N))%type.
+(* input: (max_header_size, max_body_size, chunk_size, no_keep_alive, TCP segments) *)
+Definition input := (nat * N * nat * bool * list (list N))%type.
 Definition cfg_of (i : input) : cfg :=
-  let '(mh, mb, cs, _) := i in
-  {| max_header := mh; max_body := mb; body_override := None; chunk_pred := Nat.pred cs |}.
+  let '(mh, mb, cs, nka, _) := i in
+  {| max_header := mh; max_body := mb; body_override := None; chunk_pred := Nat.pred cs; no_keep_alive := nka |}.
 Definition segs_of (i : input) : list bytes := snd i.
 
 (* the operational model: the server fed segment by segment *)
